@@ -13,7 +13,8 @@ Tab(k) ==
     [] k = 2 -> <<Q(0, 4, 0, 16384, 0, 0, 2, 1, 0), Q(0, 6, 0, 16384, 0, 1, 2, -1, 0)>>                   \* variation list, blending
     [] k = 3 -> <<Q(0, 4, 0, 32767, 1, 2, 0, -1, 0), Q(4, 6, 0, 32767, 2, 2, 2, -1, 0)>>                  \* repeats, without / with blending
     [] k = 4 -> <<Q(0, 4, 0, 0, 0, 0, 0, 1, 0), Q(1, 6, 64, 8192, 0, 0, 0, -1, 2), Q(2, 6, 0, 0, 0, 0, 0, -1, 0),
-                  Q(3, 4, 64, 0, 0, 0, 0, -1, 3), Q(5, 4, 64, 0, 0, 0, 0, -1, 9), Q(6, 6, 96, 0, 0, 0, 0, -1, 0)>>  \* alias chain, cyclic, out of range, 0x20 set
+                  Q(3, 4, 64, 0, 0, 0, 0, -1, 1), Q(5, 4, 64, 0, 0, 0, 0, -1, 9), Q(6, 6, 96, 0, 0, 0, 0, -1, 0),
+                  Q(7, 4, 64, 0, 0, 0, 0, -1, 6)>>      \* alias chains (1 hop, 2 hops), out of range, 0x20 set, cyclic
     [] k = 5 -> <<Q(0, 4, 0, 0, 0, 0, 0, 0, 0)>>                                                          \* variation cycle, frequency 0
     [] k = 6 -> <<Q(4, 6, 0, 32767, 0, 0, 0, -1, 0)>>                                                     \* no Stand
     [] k = 7 -> <<Q(0, 0, 0, 32767, 1, 1, 2, -1, 0), Q(4, 0, 0, 32767, 0, 0, 0, -1, 0)>>                  \* zero duration (+ repeat, blend)
@@ -22,11 +23,27 @@ Tab(k) ==
 Gd(k) == IF k % 2 = 0 THEN <<3, 0>> ELSE <<>>
 Ids == {0, 4, 9}
 MCInit == vacalls = 0 /\ vam \in ({EmptyM} \cup UNION {NewAll(Tab(k), Gd(k)) : k \in TabIds})
-Call == vacalls < MaxCalls /\ vacalls' = vacalls + 1 /\
-  \/ \E id \in Ids : SetIdFound(id) \/ SetIdUnknown(id)
-  \/ \E i \in 0..6 : SetIndexValid(i) \/ SetIndexInvalid(i)
-  \/ \E dt \in Dts : UpdateBegin(dt)
-MCNext == Call \/ (Steps /\ UNCHANGED vacalls)
+Spend == vacalls < MaxCalls /\ vacalls' = vacalls + 1
+Keep == UNCHANGED vacalls
+MSetIdFound == \E id \in Ids : Spend /\ SetIdFound(id)
+MSetIdUnknown == \E id \in Ids : Spend /\ SetIdUnknown(id)
+MSetIndexValid == \E i \in 0..7 : Spend /\ SetIndexValid(i)
+MSetIndexInvalid == \E i \in 0..7 : Spend /\ SetIndexInvalid(i)
+MUpdateBegin == \E dt \in Dts : Spend /\ UpdateBegin(dt)
+MStepGlobals == StepGlobals /\ Keep
+MStepSelectVariation == StepSelectVariation /\ Keep
+MStepSelectRepeat == StepSelectRepeat /\ Keep
+MStepSelectNone == StepSelectNone /\ Keep
+MStepBlendWindow == StepBlendWindow /\ Keep
+MStepBlendFull == StepBlendFull /\ Keep
+MStepBlendNoNext == StepBlendNoNext /\ Keep
+MCompleteSwap == CompleteSwap /\ Keep
+MCompleteLoop == CompleteLoop /\ Keep
+MCompleteZero == CompleteZero /\ Keep
+MCompleteNot == CompleteNot /\ Keep
+MCNext == \/ MSetIdFound \/ MSetIdUnknown \/ MSetIndexValid \/ MSetIndexInvalid \/ MUpdateBegin \/ MStepGlobals
+          \/ MStepSelectVariation \/ MStepSelectRepeat \/ MStepSelectNone \/ MStepBlendWindow \/ MStepBlendFull \/ MStepBlendNoNext
+          \/ MCompleteSwap \/ MCompleteLoop \/ MCompleteZero \/ MCompleteNot
 \* every started call comes back: the only states without a successor are idle ones out of budget (or "hung")
 NoStuck == vam.pc \in {"idle", "hung"} \/ ENABLED Steps
 =============================================================================
